@@ -382,16 +382,88 @@ std::string optvec_slots(std::vector<opt<T>> const &_v)
   return s.str();
 }
 
-// reads its second argument, moves / derives the first
-struct first_of_two
+// fail<T> / w1<T> / w2<T> (a token wrapped in a struct with a member `t`) or a token -> the token, moving an rvalue through and
+// deriving from an lvalue
+struct to_tok
+{
+  template <typename U>
+  auto operator()(U &&_u) const
+  {
+    if constexpr (requires { _u.t; })
+    {
+      if constexpr (std::is_lvalue_reference_v<U>)
+        return thru{}(_u.t);
+      else
+        return thru{}(std::move(_u.t));
+    }
+    else
+      return thru{}(std::forward<U>(_u));
+  }
+};
+
+// what a function of two arguments hands on: both, each with the value category it arrived with
+template <typename T>
+struct pair2
+{
+  T a;
+  T b;
+};
+
+struct both
+{
+  template <typename A, typename B>
+  auto operator()(A &&_a, B &&_b) const
+  {
+    using tok = decltype(to_tok{}(std::forward<A>(_a)));
+    // braced initialisation: left to right
+    return pair2<tok>{to_tok{}(std::forward<A>(_a)), to_tok{}(std::forward<B>(_b))};
+  }
+};
+
+template <typename T>
+void add_pair(slots_t &_s, pair2<T> const &_p)
+{
+  _s.add(_p.a);
+  _s.add(_p.b);
+}
+
+// for functions whose result type is fixed to T (optional::combine): the second argument is consumed (an rvalue is moved into a local
+// that dies, an lvalue is read), the first is handed on
+struct sink_second
 {
   template <typename A, typename B>
   std::remove_cvref_t<A> operator()(A &&_a, B &&_b) const
   {
-    _b.read();
+    if constexpr (std::is_lvalue_reference_v<B>)
+      _b.read();
+    else
+    {
+      std::remove_cvref_t<B> const sink{std::move(_b)};
+    }
     return thru{}(std::forward<A>(_a));
   }
 };
+
+// a function of any number of arguments: hands every argument on, in order
+template <typename T>
+struct collect
+{
+  template <typename... Args>
+  std::vector<T> operator()(Args &&..._args) const
+  {
+    std::vector<T> v;
+    v.reserve(sizeof...(Args) + 1U);
+    (v.push_back(to_tok{}(std::forward<Args>(_args))), ...);
+    return v;
+  }
+};
+
+// two scalar arguments, each in its own value category
+template <bool LvOk, typename A, typename B, typename F>
+auto with_cats2(line_t const &L, A &_a, B &_b, F const &_f)
+{
+  return with_cat<LvOk>(L.cat(0), _a, [&](auto &&x) { return with_cat<LvOk>(L.cat(1), _b, [&](auto &&y) { return _f(FWD(x), FWD(y)); }); });
+}
 
 // the families (one translation unit each): return true and set _out when the operation is theirs
 #define C05_FAMILY(name) bool name(std::string const &_op, line_t const &L, bool _mo, std::string &_out)
@@ -399,6 +471,7 @@ C05_FAMILY(family_alg);
 C05_FAMILY(family_opt);
 C05_FAMILY(family_eith);
 C05_FAMILY(family_tup);
+C05_FAMILY(family_rec);
 C05_FAMILY(family_grid);
 C05_FAMILY(family_opts);
 C05_FAMILY(family_parse);
